@@ -22,7 +22,7 @@ TITLE = "Weights stay real, finite and non-negative; dead walkers stay dead"
 
 MENU = {"quick": 64, "thorough": 256}
 TIERS = {
-    "quick": dict(runs=64 * 10, budget_s=170, recheck=2, shrink_s=60.0, run_timeout_s=900),
+    "quick": dict(runs=64 * 10, budget_s=300, recheck=2, shrink_s=60.0, run_timeout_s=900),
     "thorough": dict(runs=256 * 100, budget_s=1200, recheck=6, shrink_s=180.0, run_timeout_s=1800),
 }
 RULE = (
